@@ -39,6 +39,17 @@ def boundOk : Bound α → Bool
   | .constInput _ => false
   | .dynamic => false
 
+/-- `get_const_tensor(bound) is not None` for a present bound (an initializer that is also a graph input has one). -/
+def Bound.hasTensor : Bound α → Bool
+  | .const _ => true
+  | .constInput _ => true
+  | _ => false
+
+/-- `_FuseReluClipBase._clip_dtype(node) is not None` (commit c0ccb25): the element type of a Clip node is that of its input
+or, when the input carries no type information, that of a constant bound. -/
+def clipDtypeKnown (inputTyped : Bool) (lo hi : Bound α) : Bool :=
+  inputTyped || lo.hasTensor || hi.hasTensor
+
 inductive Outcome (β : Type) where
   | nofire
   | raises
@@ -63,7 +74,8 @@ structure ClipClip (α : Type) where
   b : Bound α   -- first Clip max
   c : Bound α   -- second Clip min
   d : Bound α   -- second Clip max
-  /-- `node.inputs[0].dtype` known for the first / second Clip (`extract_min_max` dereferences it). -/
+  /-- `node.inputs[0].dtype` known for the first / second Clip.  Since commit c0ccb25 only the first Clip's element type
+  is needed (`check` refuses when `_clip_dtype(first_clip_node)` is unknown); `dtype2` is no longer consulted. -/
   dtype1 : Bool := true
   dtype2 : Bool := true
   /-- the model's default-domain opset is ≥ 11 (before that Clip carries min/max as attributes) -/
@@ -86,7 +98,7 @@ def ClipClip.build [Min α] [Max α] (p : ClipClip α) : ClipRepl α :=
 def ClipClip.run [Min α] [Max α] (p : ClipClip α) : Outcome (ClipRepl α) :=
   if !p.opsetGe11 then .nofire      -- commit 625745e (finding C05-N2, fixed)
   else if !p.check then .nofire
-  else if !(p.dtype1 && p.dtype2) then .raises
+  else if !clipDtypeKnown p.dtype1 p.a p.b then .nofire      -- commit c0ccb25 (before: AttributeError in `extract_min_max`)
   else .fire p.build
 
 def ClipClip.lhs [Min α] [Max α] (p : ClipClip α) (x : α) : α :=
@@ -123,13 +135,13 @@ def ReluClip.buildReluClip [Max α] (zero : α) (p : ReluClip α) : ClipRepl α 
 def ReluClip.run [Max α] (zero : α) (p : ReluClip α) : Outcome (ClipRepl α) :=
   if !p.opsetGe11 then .nofire
   else if !p.check then .nofire
-  else if !p.dtype1 then .raises
+  else if !clipDtypeKnown p.dtype1 p.a p.b then .nofire      -- commit c0ccb25
   else .fire (p.build zero)
 
 def ReluClip.runReluClip [Max α] (zero : α) (p : ReluClip α) : Outcome (ClipRepl α) :=
   if !p.opsetGe11 then .nofire
   else if !p.check then .nofire
-  else if !p.dtype1 then .raises
+  else if !clipDtypeKnown p.dtype1 p.a p.b then .nofire      -- commit c0ccb25
   else .fire (p.buildReluClip zero)
 
 /-- `Clip(Relu(x), a, b)`. -/
